@@ -243,32 +243,32 @@ structure CfgOK (o : StreamOpt) (cfg : Cfg) : Prop where
 
 /-- `emit` on the plain tokenisation `f0 :: rest`, separators and joiner = the `-r` byte or the
     delimiter -/
-def E (o : StreamOpt) (cfg : Cfg) (f0 : Bytes) (rest : List Bytes) (rem : List BoF) : Run :=
+def emitPlain (o : StreamOpt) (cfg : Cfg) (f0 : Bytes) (rest : List Bytes) (rem : List BoF) : Run :=
   emit cfg ⟨f0, rest.map fun f => (1, f)⟩ (repeatBytes [o.joiner]) [o.joiner] rem
 
-theorem E_nil (o : StreamOpt) (cfg : Cfg) (f0 : Bytes) (rest : List Bytes) :
-    E o cfg f0 rest [] = Run.empty := rfl
+theorem emitPlain_nil (o : StreamOpt) (cfg : Cfg) (f0 : Bytes) (rest : List Bytes) :
+    emitPlain o cfg f0 rest [] = Run.empty := rfl
 
-theorem E_filler (o : StreamOpt) (cfg : Cfg) (f0 : Bytes) (rest : List Bytes) (x : Bytes)
-    (r : List BoF) : E o cfg f0 rest (.filler x :: r) = Run.pre x (E o cfg f0 rest r) := rfl
+theorem emitPlain_filler (o : StreamOpt) (cfg : Cfg) (f0 : Bytes) (rest : List Bytes) (x : Bytes)
+    (r : List BoF) : emitPlain o cfg f0 rest (.filler x :: r) = Run.pre x (emitPlain o cfg f0 rest r) := rfl
 
-theorem E_bound_some (o : StreamOpt) (cfg : Cfg) (hc : CfgOK o cfg) (f0 : Bytes) (rest : List Bytes)
+theorem emitPlain_bound_some (o : StreamOpt) (cfg : Cfg) (hc : CfgOK o cfg) (f0 : Bytes) (rest : List Bytes)
     (b : UserBounds) (r : List BoF) (lo hi : Nat) (h : resolve b (rest.length + 1) = some (lo, hi)) :
-    E o cfg f0 rest (.bound b :: r) =
+    emitPlain o cfg f0 rest (.bound b :: r) =
       Run.pre (pieceText (repeatBytes [o.joiner]) ⟨f0, rest.map fun f => (1, f)⟩ lo hi ++
-        (if o.join && decide (countBounds r > 0) then [o.joiner] else [])) (E o cfg f0 rest r) := by
-  unfold E
+        (if o.join && decide (countBounds r > 0) then [o.joiner] else [])) (emitPlain o cfg f0 rest r) := by
+  unfold emitPlain
   simp only [emit, Tok.numFields, List.length_map, h, hc.json, hc.join]
   rfl
 
-theorem E_bound_none (o : StreamOpt) (cfg : Cfg) (hc : CfgOK o cfg) (f0 : Bytes) (rest : List Bytes)
+theorem emitPlain_bound_none (o : StreamOpt) (cfg : Cfg) (hc : CfgOK o cfg) (f0 : Bytes) (rest : List Bytes)
     (b : UserBounds) (r : List BoF) (h : resolve b (rest.length + 1) = none) :
-    E o cfg f0 rest (.bound b :: r) =
+    emitPlain o cfg f0 rest (.bound b :: r) =
       match (match b.fallback with | some f => some f | none => o.fallbackOob) with
       | none => Run.fail
       | some x => Run.pre (x ++ (if o.join && decide (countBounds r > 0) then [o.joiner] else []))
-          (E o cfg f0 rest r) := by
-  unfold E
+          (emitPlain o cfg f0 rest r) := by
+  unfold emitPlain
   simp only [emit, Tok.numFields, List.length_map, h, hc.json, hc.join, hc.fallback]
   cases b.fallback with
   | some f => rfl
@@ -290,7 +290,7 @@ theorem joiner_flag (b : UserBounds) (t : List BoF) (j : Bool)
     `print_filler_or_fallbacks` is the specification's fallback rule -/
 theorem pfof_absent (o : StreamOpt) (cfg : Cfg) (hc : CfgOK o cfg) (f0 : Bytes) (rest : List Bytes)
     (m : Int) (hm : 0 < m) : ∀ (rem : List BoF) (p : Int), Fwd p rem → ((rest.length + 1 : Nat) : Int) ≤ p →
-    m ≤ p → printFillerOrFallbacks o m rem = E o cfg f0 rest rem := by
+    m ≤ p → printFillerOrFallbacks o m rem = emitPlain o cfg f0 rest rem := by
   intro rem
   induction rem with
   | nil => intro _ _ _ _; rfl
@@ -299,7 +299,7 @@ theorem pfof_absent (o : StreamOpt) (cfg : Cfg) (hc : CfgOK o cfg) (f0 : Bytes) 
     cases a with
     | filler x =>
       simp only [Fwd] at hf
-      rw [printFillerOrFallbacks, E_filler, ih p hf hn hmp, Run.seq_ok]
+      rw [printFillerOrFallbacks, emitPlain_filler, ih p hf hn hmp, Run.seq_ok]
     | bound b =>
       simp only [Fwd] at hf
       obtain ⟨h1, h2, h3⟩ := hf
@@ -309,7 +309,7 @@ theorem pfof_absent (o : StreamOpt) (cfg : Cfg) (hc : CfgOK o cfg) (f0 : Bytes) 
         have : ¬ (BLo b ≤ m) := by omega
         simp [this]
       have hres : resolve b (rest.length + 1) = none := resolve_absent b _ (by omega) (by omega)
-      have ht : printFillerOrFallbacks o m t = E o cfg f0 rest t := by
+      have ht : printFillerOrFallbacks o m t = emitPlain o cfg f0 rest t := by
         cases hr : b.r with
         | cont =>
           rw [hr] at h3
@@ -318,7 +318,7 @@ theorem pfof_absent (o : StreamOpt) (cfg : Cfg) (hc : CfgOK o cfg) (f0 : Bytes) 
           rw [hr] at h3
           simp only at h3
           exact ih hi h3.2 (by omega) (by omega)
-      rw [printFillerOrFallbacks, E_bound_none o cfg hc f0 rest b t hres]
+      rw [printFillerOrFallbacks, emitPlain_bound_none o cfg hc f0 rest b t hres]
       simp only [hmat, Bool.false_eq_true, and_false, if_false, joiner_flag b t o.join h2, ht]
       cases b.fallback with
       | some f => simp [Run.seq_ok]
@@ -340,10 +340,10 @@ theorem piece_at (j : Bytes) (f0 : Bytes) (rest : List Bytes) (k hi : Nat) (f : 
 
 /-- the text still to come of a range in progress: for each of the next `c` fields, the
     (replacement) delimiter and the field -/
-def Tail (o : StreamOpt) (fs : List Bytes) (c : Nat) : Bytes :=
+def tailText (o : StreamOpt) (fs : List Bytes) (c : Nat) : Bytes :=
   (fs.take c).flatMap fun g => [o.joiner] ++ g
 
-def jn (o : StreamOpt) (b : UserBounds) : Bytes := if o.join && !b.isLast then [o.joiner] else []
+def joinerAfter (o : StreamOpt) (b : UserBounds) : Bytes := if o.join && !b.isLast then [o.joiner] else []
 
 /-- the right end of a bound among `n` fields -/
 def hiN (b : UserBounds) (n : Nat) : Nat := match b.r with | .some hi => hi.toNat | .cont => n
@@ -353,7 +353,7 @@ def NIP (o : StreamOpt) (cfg : Cfg) (f0 : Bytes) (rest : List Bytes) (fs : List 
     Prop :=
   ∀ i rem, o.bounds.drop i = rem → 0 < countBounds rem → Fwd ((k : Int) - 1) rem →
     lastR rem = some o.lastInterestingField →
-    fieldsRun o i (k : Int) fs = (E o cfg f0 rest rem).seq (Run.ok [o.eol.byte])
+    fieldsRun o i (k : Int) fs = (emitPlain o cfg f0 rest rem).seq (Run.ok [o.eol.byte])
 
 /-- state "range in progress": the pending bound started before field `k` and reaches it -/
 def IP (o : StreamOpt) (cfg : Cfg) (f0 : Bytes) (rest : List Bytes) (fs : List Bytes) (k : Nat) :
@@ -362,7 +362,7 @@ def IP (o : StreamOpt) (cfg : Cfg) (f0 : Bytes) (rest : List Bytes) (fs : List B
     lastR (.bound b :: t') = some o.lastInterestingField → BLo b < (k : Int) →
     (∀ hi, b.r = .some hi → (k : Int) ≤ hi) →
     fieldsRun o i (k : Int) fs =
-      (Run.pre (Tail o fs (hiN b (rest.length + 1) + 1 - k) ++ jn o b) (E o cfg f0 rest t')).seq
+      (Run.pre (tailText o fs (hiN b (rest.length + 1) + 1 - k) ++ joinerAfter o b) (emitPlain o cfg f0 rest t')).seq
         (Run.ok [o.eol.byte])
 
 theorem length_of_drop {f0 : Bytes} {rest : List Bytes} {k : Nat} {f : Bytes} {more : List Bytes}
@@ -382,7 +382,7 @@ theorem step_complete (o : StreamOpt) (cfg : Cfg) (hc : CfgOK o cfg) (f0 : Bytes
     (hpb : printBof o i k false f true = some (w, i + 1))
     (ih : more ≠ [] → NIP o cfg f0 rest more (k + 1)) :
     fieldsRun o i k (f :: more) =
-      Run.pre w ((E o cfg f0 rest t').seq (Run.ok [o.eol.byte])) := by
+      Run.pre w ((emitPlain o cfg f0 rest t').seq (Run.ok [o.eol.byte])) := by
   have hfwd' : Fwd k t' := by
     simp only [Fwd, hr] at hfwd; exact hfwd.2.2.2
   have hdrop' : o.bounds.drop (i + 1) = t' := (drop_eq_cons hdrop).2
@@ -431,8 +431,8 @@ theorem step_continue (o : StreamOpt) (cfg : Cfg) (hc : CfgOK o cfg) (f0 : Bytes
     (hpb : printBof o i k false f true = some (w, i))
     (ih : more ≠ [] → IP o cfg f0 rest more (k + 1)) :
     fieldsRun o i k (f :: more) =
-      Run.pre w ((Run.pre (Tail o more (hiN b (rest.length + 1) - k) ++ jn o b)
-        (E o cfg f0 rest t')).seq (Run.ok [o.eol.byte])) := by
+      Run.pre w ((Run.pre (tailText o more (hiN b (rest.length + 1) - k) ++ joinerAfter o b)
+        (emitPlain o cfg f0 rest t')).seq (Run.ok [o.eol.byte])) := by
   have hlen := length_of_drop hF
   have hmem : BoF.bound b ∈ o.bounds :=
     List.mem_of_mem_drop (by rw [hdrop]; exact List.mem_cons_self)
@@ -453,9 +453,9 @@ theorem step_continue (o : StreamOpt) (cfg : Cfg) (hc : CfgOK o cfg) (f0 : Bytes
       have hmat : b.matches (k : Int) = some true := by
         rw [matches_pos b k (by omega) hlo0 (by intro hi h; rw [hr] at h; cases h)]
         simp [hr, hlo]
-      have hj : jn o b = [] := by simp [jn, hlast, hrs]
+      have hj : joinerAfter o b = [] := by simp [joinerAfter, hlast, hrs]
       simp only [fieldsRun, endOfRecord, hpb, hdrop, printFillerOrFallbacks, hmat, hr, and_self,
-        if_true, Tail, List.take_nil, List.flatMap_nil, hj, List.append_nil, Run.pre_nil]
+        if_true, tailText, List.take_nil, List.flatMap_nil, hj, List.append_nil, Run.pre_nil]
       rw [pfof_absent o cfg hc f0 rest k (by omega) t' k (fwd_of_noBounds _ t' hrs) (by omega)
         (Int.le_refl _), Run.seq_ok]
   | cons g gs =>
@@ -494,15 +494,15 @@ theorem printBof_bound_true (o : StreamOpt) (i : Nat) (k : Int) (f : Bytes) (b :
     (t : List BoF) (h : o.bounds.drop i = .bound b :: t) (hm : b.matches k = some true)
     (pp : Bool) (hpp : (decide (k > 1) && decide (b.l ≠ .some k)) = pp) :
     printBof o i k false f true =
-      if b.r = .some k then some ((if pp then [o.joiner] else []) ++ f ++ jn o b, i + 1)
+      if b.r = .some k then some ((if pp then [o.joiner] else []) ++ f ++ joinerAfter o b, i + 1)
       else some ((if pp then [o.joiner] else []) ++ f, i) := by
   rw [printBof_at_bound o i k false f true b t h, hm]
-  simp only [Bool.not_false, Bool.true_and, hpp, jn]
+  simp only [Bool.not_false, Bool.true_and, hpp, joinerAfter]
   by_cases hr : b.r = .some k <;> simp [hr]
 
 theorem tail_cons_succ (o : StreamOpt) (f : Bytes) (more : List Bytes) (c : Nat) :
-    Tail o (f :: more) (c + 1) = [o.joiner] ++ f ++ Tail o more c := by
-  simp [Tail, List.take_succ_cons]
+    tailText o (f :: more) (c + 1) = [o.joiner] ++ f ++ tailText o more c := by
+  simp [tailText, List.take_succ_cons]
 
 theorem fields_refine (o : StreamOpt) (cfg : Cfg) (hc : CfgOK o cfg) (f0 : Bytes) (rest : List Bytes)
     (hwf : NoAdjFillers o.bounds) (hadm : Admissible o.bounds (rest.length + 1)) :
@@ -526,7 +526,7 @@ theorem fields_refine (o : StreamOpt) (cfg : Cfg) (hc : CfgOK o cfg) (f0 : Bytes
     have nipb : ∀ i b t', o.bounds.drop i = .bound b :: t' → Fwd ((k : Int) - 1) (.bound b :: t') →
         lastR (.bound b :: t') = some o.lastInterestingField →
         fieldsRun o i (k : Int) (f :: more) =
-          (E o cfg f0 rest (.bound b :: t')).seq (Run.ok [o.eol.byte]) := by
+          (emitPlain o cfg f0 rest (.bound b :: t')).seq (Run.ok [o.eol.byte]) := by
       intro i b t' hdrop hfwdk hlr
       have hfwd0 : Fwd 0 (.bound b :: t') := fwd_mono (by omega) _ hfwdk
       have hmem : BoF.bound b ∈ o.bounds :=
@@ -583,9 +583,9 @@ theorem fields_refine (o : StreamOpt) (cfg : Cfg) (hc : CfgOK o cfg) (f0 : Bytes
           rw [step_complete o cfg hc f0 rest i k f more b t' _ hF hk hdrop hfwd0 hlr hr hpb ihN]
           have hres := resolve_closed b (rest.length + 1) k hr hlo0 (by omega) (by omega)
           rw [hkeq, Int.toNat_natCast] at hres
-          rw [E_bound_some o cfg hc f0 rest b t' k k hres,
+          rw [emitPlain_bound_some o cfg hc f0 rest b t' k k hres,
             piece_at [o.joiner] f0 rest k k f more hF hk (Nat.le_refl _), Run.pre_seq]
-          simp [jn, joiner_flag b t' o.join hlast]
+          simp [joinerAfter, joiner_flag b t' o.join hlast]
         · rw [if_neg hr] at hpb
           simp only [Bool.false_eq_true, if_false, List.nil_append] at hpb
           have hreach : ∀ hi, b.r = .some hi → (k : Int) ≤ hi := by
@@ -608,10 +608,10 @@ theorem fields_refine (o : StreamOpt) (cfg : Cfg) (hc : CfgOK o cfg) (f0 : Bytes
               rw [hkeq, Int.toNat_natCast] at this
               simp only [hiN, hrr]
               exact ⟨this, by omega⟩
-          rw [E_bound_some o cfg hc f0 rest b t' k _ hres.1,
+          rw [emitPlain_bound_some o cfg hc f0 rest b t' k _ hres.1,
             piece_at [o.joiner] f0 rest k _ f more hF hk hres.2, Run.pre_seq, Run.pre_seq,
             Run.pre_pre]
-          simp [jn, Tail, joiner_flag b t' o.join hlast, List.append_assoc]
+          simp [joinerAfter, tailText, joiner_flag b t' o.join hlast, List.append_assoc]
     constructor
     · -- NIP: skip a pending filler
       intro i rem hdrop hcb hfwd hlr
@@ -641,7 +641,7 @@ theorem fields_refine (o : StreamOpt) (cfg : Cfg) (hc : CfgOK o cfg) (f0 : Bytes
               have hm := matches_pos b k (by omega) (by omega) (fun hi hr => by
                 rw [hr] at hrs; simp only at hrs; omega)
               rw [fieldsRun_filler o i k (f :: more) (by simp) x b t' hdrop (by rw [hm]; simp),
-                nipb (i + 1) b t' (drop_eq_cons hdrop).2 hfwd' hlr', E_filler, Run.pre_seq]
+                nipb (i + 1) b t' (drop_eq_cons hdrop).2 hfwd' hlr', emitPlain_filler, Run.pre_seq]
     · -- IP
       intro i b t' hdrop hfwd0 hlr hlo hreach
       obtain ⟨hlo0, hlast, hrs⟩ : 0 < BLo b ∧ b.isLast = decide (countBounds t' = 0) ∧
@@ -668,7 +668,7 @@ theorem fields_refine (o : StreamOpt) (cfg : Cfg) (hc : CfgOK o cfg) (f0 : Bytes
         rw [step_complete o cfg hc f0 rest i k f more b t' _ hF hk hdrop hfwd0 hlr hr hpb ihN]
         have : hiN b (rest.length + 1) + 1 - k = 0 + 1 := by simp [hiN, hr]
         rw [this, tail_cons_succ, Run.pre_seq]
-        simp [Tail]
+        simp [tailText]
       · rw [if_neg hr] at hpb
         simp only [if_true] at hpb
         rw [step_continue o cfg hc f0 rest hadm i k f more b t' _ hF hk hdrop hfwd0 hlr
@@ -737,7 +737,7 @@ theorem recRun_eq_specRecord (o : StreamOpt) (cfg : Cfg) (hcs : CfgStream o cfg)
         (Nat.le_refl _)).1 0 o.bounds rfl (countBounds_pos_of_lastR hlr) (by simpa using hfwd) hlr
       simp only [Int.natCast_one] at key
       rw [key]
-      simp only [List.headD_cons, List.tail_cons, E]
+      simp only [List.headD_cons, List.tail_cons, emitPlain]
       cases h : o.replaceDelimiter <;> simp [StreamOpt.joiner, h]
 
 theorem splitAux_single_length (d : UInt8) (l : Bytes) : ∀ cur : Bytes,
@@ -769,5 +769,301 @@ theorem stream_refines_spec_core (o : StreamOpt) (cfg : Cfg) (hcs : CfgStream o 
   exact streamRecords_eq_spec o cfg _ fun r hr =>
     recRun_eq_specRecord o cfg hcs hwf hfwd hlr r (by
       rw [splitFields_single_length]; exact hadm r hr)
+
+
+/-! ## the forward discipline is what `StreamOpt::try_from` checks -/
+
+/-- what the `-f` parser guarantees of one bound (`UserBounds::from_str`): no index is 0 and a
+    range with two positive ends is not reversed -/
+def BoundWF (b : UserBounds) : Prop :=
+  b.l ≠ .some 0 ∧ b.r ≠ .some 0 ∧ ∀ l r, b.l = .some l → b.r = .some r → 0 < l → 0 < r → l ≤ r
+
+/-- `is_last` is set on the last bound and only there (what `UserBoundsList::from` leaves) -/
+def LastOK : List BoF → Prop
+  | [] => True
+  | .filler _ :: t => LastOK t
+  | .bound b :: t => b.isLast = decide (countBounds t = 0) ∧ LastOK t
+
+def FwdU : Int → List UserBounds → Prop
+  | _, [] => True
+  | p, b :: t => p < BLo b ∧
+      (match b.r with
+       | .some hi => BLo b ≤ hi ∧ FwdU hi t
+       | .cont => t = [])
+
+theorem countBounds_eq_zero_iff (l : List BoF) : countBounds l = 0 ↔ boundsOnly l = [] := by
+  induction l with
+  | nil => simp [countBounds, boundsOnly]
+  | cons a t ih => cases a <;> simp [countBounds, boundsOnly, ih]
+
+theorem fwd_of_parts : ∀ (l : List BoF) (p : Int), FwdU p (boundsOnly l) → LastOK l → Fwd p l
+  | [], _, _, _ => trivial
+  | .filler _ :: t, p, h1, h2 => by
+    simp only [boundsOnly] at h1; simp only [LastOK] at h2; simp only [Fwd]
+    exact fwd_of_parts t p h1 h2
+  | .bound b :: t, p, h1, h2 => by
+    simp only [boundsOnly, FwdU] at h1; simp only [LastOK] at h2; simp only [Fwd]
+    refine ⟨h1.1, h2.1, ?_⟩
+    cases hr : b.r with
+    | cont =>
+      have := h1.2; rw [hr] at this
+      exact (countBounds_eq_zero_iff t).2 this
+    | some hi =>
+      have := h1.2; rw [hr] at this
+      exact ⟨this.1, fwd_of_parts t hi this.2 h2.2⟩
+
+theorem noSharedField_cons (prev : Int) (b : UserBounds) (t : List UserBounds) :
+    noSharedField prev (b :: t) =
+      if BLo b ≤ prev then false
+      else noSharedField (match b.r with | .some r => r | .cont => prev) t := by
+  rfl
+
+theorem fwdU_of_checks : ∀ (bs : List UserBounds) (prev : Int) (x : Option UserBounds), 0 ≤ prev →
+    noSharedField prev bs = true → isSortedAux x bs = true →
+    (∀ b ∈ bs, BoundWF b ∧ b.l.isNeg = false ∧ b.r.isNeg = false) → FwdU prev bs
+  | [], _, _, _, _, _, _ => trivial
+  | b :: t, prev, x, hp, hns, hs, hall => by
+    obtain ⟨⟨hl0, hr0, hord⟩, hln, hrn⟩ := hall b (by simp)
+    have hall' : ∀ b ∈ t, BoundWF b ∧ b.l.isNeg = false ∧ b.r.isNeg = false :=
+      fun b hb => hall b (by simp [hb])
+    have hs' : isSortedAux (some b) t = true := by
+      cases x with
+      | none => simpa [isSortedAux] using hs
+      | some p =>
+        simp only [isSortedAux] at hs
+        split at hs
+        · exact hs
+        · cases hs
+    rw [noSharedField_cons] at hns
+    have hlt : prev < BLo b := by
+      by_cases hle : BLo b ≤ prev
+      · simp [hle] at hns
+      · omega
+    have hns' : noSharedField (match b.r with | .some r => r | .cont => prev) t = true := by
+      have hle : ¬ (BLo b ≤ prev) := by omega
+      simpa [hle] using hns
+    refine ⟨hlt, ?_⟩
+    cases hr : b.r with
+    | some hi =>
+      rw [hr] at hns' hrn hr0
+      simp only [Side.isNeg, decide_eq_false_iff_not] at hrn
+      have hhi : 0 < hi := by
+        have : hi ≠ 0 := fun h => hr0 (by rw [h])
+        omega
+      have hle : BLo b ≤ hi := by
+        unfold BLo at hlt ⊢
+        cases hl : b.l with
+        | cont => simp only; omega
+        | some l =>
+          rw [hl] at hlt
+          simp only at hlt ⊢
+          exact hord l hi hl hr (by omega) hhi
+      exact ⟨hle, fwdU_of_checks t hi (some b) (by omega) hns' hs' hall'⟩
+    | cont =>
+      simp only
+      cases t with
+      | nil => rfl
+      | cons b' t' =>
+        exfalso
+        simp only [isSortedAux, UserBounds.le, UserBounds.partialCmp, hr] at hs'
+        cases hl' : b'.l <;> simp [hl', Side.partialCmp] at hs'
+
+theorem lastR_eq (l : List BoF) : lastR l = lastBoundRight (boundsOnly l) := by
+  induction l with
+  | nil => rfl
+  | cons a t ih =>
+    cases a with
+    | filler _ => simpa [lastR, boundsOnly] using ih
+    | bound b =>
+      simp only [lastR, boundsOnly]
+      by_cases h : countBounds t = 0
+      · rw [if_pos h, (countBounds_eq_zero_iff t).1 h]; rfl
+      · rw [if_neg h, ih]
+        cases hb : boundsOnly t with
+        | nil => exact absurd ((countBounds_eq_zero_iff t).2 hb) h
+        | cons b' t' => rfl
+
+theorem markLast_none {l : List BoF} (h : markLast l = none) : countBounds l = 0 := by
+  induction l with
+  | nil => rfl
+  | cons a t ih =>
+    cases a with
+    | filler f =>
+      simp only [markLast, Option.map_eq_none_iff] at h
+      simpa [countBounds] using ih h
+    | bound b =>
+      simp only [markLast] at h
+      split at h <;> cases h
+
+/-- marking the last bound of a list that is already marked changes nothing -/
+theorem markLast_id {l m : List BoF} (h : markLast l = some m) (hl : LastOK l) : m = l := by
+  induction l generalizing m with
+  | nil => simp [markLast] at h
+  | cons a t ih =>
+    cases a with
+    | filler f =>
+      simp only [markLast, Option.map_eq_some_iff] at h
+      obtain ⟨t', ht, rfl⟩ := h
+      simp only [LastOK] at hl
+      rw [ih ht hl]
+    | bound b =>
+      simp only [LastOK] at hl
+      simp only [markLast] at h
+      cases hm : markLast t with
+      | none =>
+        simp only [hm, Option.some.injEq] at h
+        subst h
+        have : b.isLast = true := by rw [hl.1, markLast_none hm]; rfl
+        cases b
+        simp only at this
+        subst this
+        rfl
+      | some t' =>
+        simp only [hm, Option.some.injEq] at h
+        subst h
+        rw [ih hm hl.2]
+
+theorem mem_boundsOnly {b : UserBounds} {l : List BoF} : b ∈ boundsOnly l ↔ BoF.bound b ∈ l := by
+  induction l with
+  | nil => simp [boundsOnly]
+  | cons a t ih => cases a <;> simp [boundsOnly, ih]
+
+/-- everything `StreamOpt::try_from` establishes -/
+theorem streamOptOf_facts (opt : Opt) (so : StreamOpt) (h : streamOptOf opt = some so) :
+    opt.delimiter = [so.delimiter] ∧
+    opt.replaceDelimiter = so.replaceDelimiter.map (fun r => [r]) ∧
+    so.join = opt.join ∧ so.eol = opt.eol ∧ so.fallbackOob = opt.fallbackOob ∧
+    forwardBoundsOf opt.bounds = some so.bounds ∧
+    lastBoundRight (boundsOnly so.bounds) = some so.lastInterestingField ∧
+    (opt.complement = false ∧ opt.greedyDelimiter = false ∧ opt.compressDelimiter = false ∧
+      opt.json = false ∧ opt.boundsType = .fields ∧ opt.trim = none ∧ opt.onlyDelimited = false) := by
+  unfold streamOptOf at h
+  split at h
+  · rename_i d hd
+    simp only at h
+    split at h
+    · cases h
+    · rename_i repl hrepl
+      split at h
+      · cases h
+      · rename_i hflags
+        split at h
+        · cases h
+        · rename_i bs hbs
+          split at h
+          · cases h
+          · rename_i last hlast
+            simp only [Option.some.injEq] at h
+            subst h
+            simp only
+            have hr : opt.replaceDelimiter = repl.map (fun r => [r]) := by
+              cases hrd : opt.replaceDelimiter with
+              | none => rw [hrd] at hrepl; simp at hrepl; subst hrepl; rfl
+              | some r =>
+                rw [hrd] at hrepl
+                cases r with
+                | nil => simp at hrepl
+                | cons r0 rt =>
+                  cases rt with
+                  | nil => simp at hrepl; subst hrepl; rfl
+                  | cons _ _ => simp at hrepl
+            refine ⟨hd, hr, trivial, trivial, trivial, hbs, hlast, ?_⟩
+            simp only [Bool.or_eq_true, not_or, Bool.not_eq_true, bne_iff_ne, ne_eq,
+              Decidable.not_not, Option.isSome_eq_false_iff, Option.isNone_iff_eq_none] at hflags
+            obtain ⟨⟨⟨⟨⟨⟨⟨h1, h2⟩, h3⟩, h4⟩, h5⟩, h6⟩, _⟩, h8⟩ := hflags
+            exact ⟨h1, h2, h3, h4, h5, h6, h8⟩
+  · cases h
+
+
+theorem forwardBoundsOf_facts (l : UserBoundsList) (bs : List BoF) (h : forwardBoundsOf l = some bs) :
+    isSorted l.list = true ∧ hasNegativeIndices l.list = false ∧
+      noSharedField 0 (boundsOnly l.list) = true ∧ markLast l.list = some bs := by
+  unfold forwardBoundsOf at h
+  split at h
+  · cases h
+  · split at h
+    · rename_i hfo
+      split at h
+      · rename_i hns
+        split at h
+        · rename_i l' hl'
+          simp only [Option.some.injEq] at h
+          subst h
+          unfold fromVec at hl'
+          cases hm : markLast l.list with
+          | none => simp [hm] at hl'
+          | some m =>
+            simp only [hm, Res.ok.injEq] at hl'
+            subst hl'
+            simp only [isForwardOnly, Bool.and_eq_true, Bool.not_eq_true'] at hfo
+            exact ⟨hfo.1.2, hfo.2, hns, rfl⟩
+        · cases h
+      · cases h
+    · cases h
+
+/-- **C03.**  For every option set that `-M` accepts (`streamOptOf opt = some so`) whose bounds are
+    as the `-f` parser leaves them (no two literal texts in a row, indexes non-zero, ranges not
+    reversed, `is_last` on the last bound), every read segmentation `segs`, and every input all of
+    whose records are admissible (no requested closed range `lo:hi` straddles the end of the
+    record: `hi ≤ n ∨ n < lo` for `n` = number of fields): the bytes written and the exit status
+    are those of the specification of the same request. -/
+theorem stream_refines_spec (opt : Opt) (so : StreamOpt) (h : streamOptOf opt = some so)
+    (hna : NoAdjFillers opt.bounds.list)
+    (hwfb : ∀ b, BoF.bound b ∈ opt.bounds.list → BoundWF b)
+    (hlast : LastOK opt.bounds.list)
+    (segs : List Bytes)
+    (hadm : ∀ r ∈ records opt.eol.byte segs.flatten,
+      Admissible opt.bounds.list (r.count so.delimiter + 1)) :
+    cutBytesStream so segs = specRun (cfgOf opt) segs.flatten := by
+  obtain ⟨hd, hrd, hjoin, heol, hfb, hfwb, hlr, hc, hg, hp, hj, hbt, htrim, hod⟩ :=
+    streamOptOf_facts opt so h
+  obtain ⟨hsorted, hneg, hns, hml⟩ := forwardBoundsOf_facts _ _ hfwb
+  have hb : so.bounds = opt.bounds.list := markLast_id hml hlast
+  have hfwdU : FwdU 0 (boundsOnly opt.bounds.list) := by
+    refine fwdU_of_checks _ 0 none (Int.le_refl _) hns hsorted ?_
+    intro b hbm
+    have := hneg
+    simp only [hasNegativeIndices, List.any_eq_false, Bool.or_eq_true, not_or,
+      Bool.not_eq_true] at this
+    exact ⟨hwfb b (mem_boundsOnly.1 hbm), (this b hbm).1, (this b hbm).2⟩
+  have hfwd : Fwd 0 so.bounds := by rw [hb]; exact fwd_of_parts _ 0 hfwdU hlast
+  have hlr' : lastR so.bounds = some so.lastInterestingField := by rw [lastR_eq]; exact hlr
+  have hcs : CfgStream so (cfgOf opt) := by
+    constructor <;> simp [cfgOf, hd, heol, hb, hbt, hod, hg, hp, hrd, htrim, hc, hjoin, hj, hfb]
+  exact stream_refines_spec_core so (cfgOf opt) hcs (by rw [hb]; exact hna) hfwd hlr' segs
+    (by rw [hb, heol]; exact hadm)
+
+
+/-! ## a concrete instance (non-vacuity): `tuc -M -d - -j -f '{1}x{3:}'`
+
+Every record is admissible for these bounds (the only closed range is `1:1`), so the statement
+holds for every input and every read segmentation. -/
+
+def c03ExBounds : List BoF :=
+  [.bound { l := .some 1, r := .some 1 }, .filler [0x78],
+   .bound { l := .some 3, r := .cont, isLast := true }]
+
+def c03ExOpt : Opt := { delimiter := [0x2d], bounds := ⟨c03ExBounds, .cont⟩, join := true }
+
+def c03ExSo : StreamOpt :=
+  { delimiter := 0x2d, replaceDelimiter := none, join := true, eol := .newline, fallbackOob := none,
+    bounds := c03ExBounds, lastInterestingField := .cont }
+
+example (segs : List Bytes) :
+    cutBytesStream c03ExSo segs = specRun (cfgOf c03ExOpt) segs.flatten :=
+  stream_refines_spec c03ExOpt c03ExSo (by rfl) (by simp [c03ExOpt, c03ExBounds, NoAdjFillers])
+    (by
+      intro b hb
+      simp only [c03ExOpt, c03ExBounds, List.mem_cons, BoF.bound.injEq, List.mem_nil_iff, or_false,
+        reduceCtorEq, false_or] at hb
+      rcases hb with rfl | rfl <;> simp [BoundWF])
+    (by simp [c03ExOpt, c03ExBounds, LastOK, countBounds]) segs
+    (by
+      intro r _ b hb hi hr
+      simp only [c03ExOpt, c03ExBounds, List.mem_cons, BoF.bound.injEq, List.mem_nil_iff, or_false,
+        reduceCtorEq, false_or] at hb
+      rcases hb with rfl | rfl
+      · simp only [Side.some.injEq] at hr; subst hr; left; omega
+      · simp at hr)
 
 end Tuc
